@@ -117,3 +117,52 @@ def reg_serialize_raw(reg, prop):
         ]}},
         frame=[])
     reg.add_fn(c)
+
+
+def reg_parse_header(reg, prop):
+    """UDPMessageDeserializer._parse_message_header on a datagram that is not zero-coded: flags, id, offset, acks (order restored),
+    raw body with the ack trailer snipped. The zero-coded branch needs C03's prefix properties and stays bounded-tier."""
+    import io
+    import hippolyzer.lib.base.serialization as se
+    from hippolyzer.lib.base.message.msgtypes import PacketLayout
+    reg_message(reg)
+    reg_buffers(reg)
+    rd = reg.classes["BufferReader"]
+    rd.inline["scoped_seek"] = (SE_REL, "Reader.scoped_seek")
+    if "Reader" not in reg.classes:
+        reg.add_class(ClassDecl("Reader", fields={"endianness": "Str", "pod": "Bool"}, ctor=(SE_REL, "Reader.__init__")))
+    rd.supers = ["Reader"]
+    reg.add_class(ClassDecl("UDPMessageDeserializer", fields={"template_dict": "Opaque:Any", "settings": "Opaque:Any"}))
+    reg.macros["be32at"] = (["s", "o"], "s[o] * 16777216 + s[o + 1] * 65536 + s[o + 2] * 256 + s[o + 3]")
+    reg.add_fn(FnContract(key="hippolyzer.lib.base.message.udpdeserializer:_parse_msg_num", relpath=DES_REL, qualname="_parse_msg_num",
+                          cls=None, prop=prop, verify=False, params={"reader": "Obj:BufferReader"}, param_names=["reader"],
+                          returns="Tuple[Opaque:Any,Int]", may_raise={"ValueError": ""},
+                          ensures=["reader._pos > old(reader._pos) and reader._pos <= old(reader._pos) + 4"], frame=["reader._pos"],
+                          doc="variable-width message number (1..4 bytes): bounded tier checks it against every template (complete)"))
+    acks_at = "len(data) - 1 - 4 * (j0 + 1)"
+    reg.add_fn(FnContract(
+        key="hippolyzer.lib.base.message.udpdeserializer:UDPMessageDeserializer._parse_message_header@plain", relpath=DES_REL,
+        qualname="UDPMessageDeserializer._parse_message_header", cls="UDPMessageDeserializer", prop=prop,
+        params={"data": "Bytes"}, param_names=["data"], returns="Obj:Message", ghost={"j0": "Int"},
+        consts={"se": se, "io": io, "PacketLayout": PacketLayout},
+        externals={"Message": {"returns": "Obj:Message", "post": ["len(result.acks) == 0"], "doc": "fresh placeholder message (no acks)"},
+                   "self.template_dict.get_template_by_pair": {"returns": "Opt[Opaque:Tmpl]", "doc": "template lookup"},
+                   "weakref.ref": {"returns": "Opaque:Any", "doc": "weak reference"}},
+        requires=["len(data) >= 1", "(data[0] & 128) == 0"],
+        may_raise={"exc.MessageDeserializationError": "len(data) <= 6 or ((data[0] & 16) != 0 and len(data) - 1 - 4 * data[len(data) - 1] <= 6)",
+                   "exc.MessageTemplateNotFound": "", "ValueError": "", "IOError": "", "AttributeError": "False"},
+        ensures=[
+            "result.send_flags == data[0]", "val(result.packet_id) == be32at(data, 1)", "result.offset == data[5]",
+            "implies((data[0] & 16) == 0, val(result.raw_body) == data[6:] and len(result.acks) == 0)",
+            # ack trailer: count byte last, IDs big-endian in reverse order before it, snipped off the body
+            "implies((data[0] & 16) != 0, len(result.acks) == data[len(data) - 1] and "
+            "val(result.raw_body) == data[6:len(data) - 1 - 4 * data[len(data) - 1]])",
+            f"implies((data[0] & 16) != 0 and 0 <= j0 and j0 < len(result.acks), result.acks[j0] == be32at(data, {acks_at}))",
+        ],
+        loops={0: {"havoc_sorts": {"acks": "IntList"},
+                   "inv": ["len(acks) == _i", "reader._pos == msg_size + 4 * _i", "reader._len == len(data)", "reader._buffer == data",
+                           "msg_size == len(data) - 1 - 4 * num_acks", "num_acks == data[len(data) - 1]", "msg_size > 6",
+                           # acks are inserted at the head: after _i reads, acks[k] is the (_i-1-k)-th word read
+                           "implies(0 <= j0 and j0 < _i, acks[_i - 1 - j0] == be32at(data, msg_size + 4 * j0))",
+                           "msg.send_flags == data[0] and val(msg.packet_id) == be32at(data, 1)"]}},
+        frame=None))
